@@ -180,6 +180,9 @@ func ZZ_C09_requestsAtArbitraryTimes() {
 	ds.Status.ActiveReplicaSet = rsNew.Name
 	freq := nondet.Int("reconcileFrequencySec", 1, 60)
 	ds.Spec.Strategy.ReconcileFrequency = &metav1.Duration{Duration: time.Duration(freq) * time.Second}
+	// the slow-start interval is a different knob (how fast the creation bound grows): shorter or longer
+	// than reconcileFrequency, it does not change the spacing
+	ds.Spec.Strategy.RollingUpdate.SlowStartIntervalDuration = &metav1.Duration{Duration: time.Duration(nondet.Int("slowStartIntervalSec", 1, 120)) * time.Second}
 	for i := 0; i < 3; i++ {
 		c.Pods = append(c.Pods, zzPod("old-"+zzNodeName(i), zzNodeName(i), zzOldRS, zzHashOld, 0, corev1.PodRunning, true, nondet.Base().Add(-time.Hour)))
 	}
